@@ -22,5 +22,8 @@ InvClamped == phase = "done" /\ ~Rejected(sc) => Canon(sc).rms \in 0..sc.R /\ Ca
 InvBroadcast == phase = "done" /\ ~Rejected(sc) => Len(Canon(sc).lb) = sc.V /\ Len(Canon(sc).ub) = sc.V /\ Len(Canon(sc).magn) = sc.V
                                                     /\ (Len(Canon(sc).mask) \in {0, sc.V})
 InvBoundsOrdered == phase = "done" /\ ~Rejected(sc) => \A v \in 1..sc.V : Canon(sc).lb[v] <= Canon(sc).ub[v]
+InvRelativeRange == phase = "done" => RelativeInTransformedRange(sc)
+InvScaledOrdered == phase = "done" /\ ~Rejected(sc) =>
+                      \A v \in 1..sc.V : LET s == ScaledCanon(sc) IN (s.lb[v].inf = 0 /\ s.ub[v].inf = 0) => QLe(s.lb[v].q, s.ub[v].q)
 InvEmit == phase = "done" /\ Emit => PrintT(ToJson(sc @@ [rejected |-> Rejected(sc)]))
 =============================================================================
